@@ -46,6 +46,9 @@ def classify(component, what, case):
             return "F50"                                   # LYB print of a union re-stores the shared member value
         if "ly_err_new_rec" in fr and ("lyht_resize" in fr or "_lyht_insert_with_resize_cb" in fr) and (fr & ERR_DEREF or "ly_err_get_rec" in fr):
             return "F8"                                    # record array replaced while another thread holds a pointer into it
+        if "F8" in (case.get("prior") or []) and flags is not None and not (flags & 1) and \
+                re.search(r"in (ly_err_clean|ly_err_free|ly_err_first|ly_err_last|log_store)\b", case.get("summary", "")):
+            return "F8"                                    # the stale record pointer is used again later in the same process
         if "lyd_new_path_check_find_lypath" in fr and re.search(r"in (lyd_new_path_check_find_lypath|lysc_type_free)\b", case.get("summary", "")):
             return "F51"                                   # non-atomic ++type->refcount on the shared compiled type
         if {"lysc_type_free", "ly_path_predicates_free", "lyd_new_path_"} <= fr and flags is not None and (flags & 32):
@@ -59,8 +62,9 @@ def classify(component, what, case):
                 return "F50"
             if "leaked in" in case.get("summary", "") and fr & {"json_print_data", "xml_print_data", "lyb_print_data"}:
                 return "F50"
-            if re.search(r"union\.c:\d+:\d+: runtime error: member access within null pointer", case.get("summary", "")):
-                return "F50"                               # realtype of the member value is NULL while another thread re-stores it
+            if "runtime error" in case.get("summary", "") and (fr & {"lyplg_type_print_union", "union_store_type"} or
+                                                                re.search(r"union\.c:\d+:\d+: runtime error: member access within null pointer", case.get("summary", ""))):
+                return "F50"                               # the member value is read while another thread re-stores it (NULL realtype / items)
         if fr & LAZY_SITES:
             return "F9"                                    # lazy _canonical fill / its freshly published string
         return None
@@ -92,8 +96,9 @@ def report_blocks(stderr):
         s = re.search(r"^SUMMARY: \w+Sanitizer: ([^\n]*)", b, re.M)
         head = b.split("\n")[0]
         out.append(((s.group(1) if s else head).strip(), sorted(set(re.findall(r"#\d+ 0x[0-9a-f]+ in ([A-Za-z_]\w*)", b))), b))
-    for m in re.finditer(r"[^\n]*runtime error:[^\n]*", stderr):
-        out.append((m.group(0).strip(), [], m.group(0)))
+    for m in re.finditer(r"[^\n]*runtime error:[^\n]*(?:\n\s+#\d+ [^\n]*)*", stderr):
+        b = m.group(0)
+        out.append((b.split("\n")[0].strip(), sorted(set(re.findall(r"#\d+ 0x[0-9a-f]+ in ([A-Za-z_]\w*)", b))), b))
     return out
 
 
@@ -245,6 +250,18 @@ def interleave(ts, order):
 
 
 # -------------------------------------------------------------------------------------------- run
+def corpus_lines():
+    out = []
+    try:
+        for l in open(os.path.join(paths.CORPUS, "conc", "seeds.txt")):
+            l = l.strip()
+            if l and not l.startswith("#"):
+                out.append(l)
+    except OSError:
+        pass
+    return out
+
+
 def run(cx):
     t_start = time.time()
     run_wb_log(cx)
@@ -259,7 +276,9 @@ def run_wb_log(cx):
             "random and nearly-serial merges; the model says which schedules dereference a stale record pointer, those are run one process each and must "
             "abort in ASan with the F8 stacks, all others must reply token for token like the model; non-trivial = distinct request")
     cases = gen_errsched(cx)
-    lines = [errsched_line(i, p, m) for i, (p, m) in enumerate(cases)]
+    wl = errsched_line(900000, *F8_WITNESS)         # the model's own witness schedule first
+    seeds = ["%d conc %s" % (800000 + i, l) for i, l in enumerate(corpus_lines()) if l.startswith("errsched")]
+    lines = [wl] + seeds + [errsched_line(i, p, m) for i, (p, m) in enumerate(cases)]
     lines = list(dict.fromkeys(lines))
     rm = cx.run_model(lines)
     ok_lines, stale_lines = [], []
@@ -275,8 +294,9 @@ def run_wb_log(cx):
     # schedules the model calls stale: the library itself must touch freed memory (F8), one process per schedule
     rng = cx.sub_rng("stale-pick")
     pick = stale_lines if len(stale_lines) <= cx.n(6, 60) else rng.sample(stale_lines, cx.n(6, 60))
-    wl = errsched_line(900000, *F8_WITNESS)
-    for l in [wl] + pick:
+    pick = [l for l in [wl] + seeds if l in stale_lines and l not in pick] + pick
+    cx.dist["conc:errsched:model-says-stale"] += len(stale_lines)
+    for l in pick:
         reply, rc, err = run_one(exe, l, "asan")
         cx.count(" ".join(l.split()[1:]), True, "conc:errsched:model-stale")
         blocks = report_blocks(err)
@@ -302,6 +322,7 @@ def run_wb_log(cx):
         order = random_merge(rng, [len(p) for p in ts])
         dl.append("%d conc dictsched %s" % (100000 + i, " ".join(interleave(ts, order))))
     dl.append("199999 conc dictsched")
+    dl += ["%d conc %s" % (190000 + i, l) for i, l in enumerate(corpus_lines()) if l.startswith("dictsched")]
     cx.differential("conc", list(dict.fromkeys(dl)), "wb_log", kind=lambda l, r: "conc:dictsched:" + r[0])
     law_lines, groups = [], []
     for g in range(cx.n(60, 1500)):
